@@ -82,10 +82,12 @@ LineVerdict(e) ==
         f4 == IF Has(e, "str_same") /\ ~e.str_same THEN ";string-changed" ELSE ""
         f5 == IF Has(e, "same2") /\ ~e.same2 /\ ~MayVary(e.ast) /\ ~ErrorsOnly(e, "out2") THEN ";not-repeatable" ELSE ""
         f5b == IF Has(e, "same3") /\ ~e.same3 /\ ~MayVary(e.ast) /\ ~ErrorsOnly(e, "out3") THEN ";history-dependent" ELSE ""
+        \* the same case evaluated by one process after all the other cases of the run, and by another before them
+        f5c == IF Has(e, "rev_same") /\ ~e.rev_same /\ ~MayVary(e.ast) /\ ~(HasCtor(e.ast) /\ e.ord_fwd.o = "err" /\ e.ord_rev.o = "err") THEN ";order-dependent" ELSE ""
         f6 == IF Has(e, "mar") /\ e.mar # "ok" THEN ";not-json" ELSE ""
         f7 == IF Has(e, "eb") /\ e.eb \notin {"ok", "skip"} /\ ~(MayVary(e.ast) /\ e.eb \in {"different-value", "different-error"}) THEN ";evalbytes-differs" ELSE ""
         f8 == IF v = "no" /\ UndefDiffers(e.out, IF Has(e, "want_ast") THEN e.want_ast ELSE e.ast, e.inp, e.binds, eng) THEN ";undefined-mismatch" ELSE ""
-    IN  v \o f1 \o f2 \o f3 \o f4 \o f5 \o f5b \o f6 \o f7 \o f8
+    IN  v \o f1 \o f2 \o f3 \o f4 \o f5 \o f5b \o f5c \o f6 \o f7 \o f8
 
 Check == /\ verdict = "pending"
          /\ verdict' = LineVerdict(TraceLines[l])
